@@ -148,9 +148,8 @@ def exh_graphs(tier):
             for ex in itertools.combinations(e1, n):
                 out.append(('v1', [('a', INSTANCE, c)] + list(ex)))
     # --- two variables
-    e2 = [('a', R[0], 'b'), ('a', R[1], 'b'), ('b', R[0], 'a'), ('b', R[1], 'a'), ('a', R[0], 'a'), ('b', R[1], 'b'),
-          ('a', ':quant', 0.0), ('b', ':quant', -1.5), ('b', ':quant', '"s"'), ('a', ':polarity', None),
-          ('b', R[1], 'k')]
+    e2 = [('a', R[0], 'b'), ('a', R[1], 'b'), ('b', R[0], 'a'), ('b', R[1], 'a'), ('a', R[0], 'a'),
+          ('a', ':quant', 0.0), ('b', ':quant', '"s"'), ('a', ':polarity', None), ('b', R[1], 'k')]
     for ca, cb in [('x', 'y'), ('b', 'y'), (None, 'a'), (0.0, 'y')]:
         for e in e2[:4]:
             base = [('a', INSTANCE, ca), e, ('b', INSTANCE, cb)]
@@ -217,7 +216,7 @@ def rand_worker(item):
             res.stats['has-zero-constant'] += 1
         if any(t[1] == INSTANCE and t[2] in V for t in triples):
             res.stats['concept-spelled-like-variable'] += 1
-        explore_graph(res, batch, info, rng, 'rand', triples, sorted(V), seen_texts, limit_all=4, nshuffle=12,
+        explore_graph(res, batch, info, rng, 'rand', triples, sorted(V), seen_texts, limit_all=4, nshuffle=10,
                       want_key=True)
     n, mm = batch.run()
     res.corr += n
@@ -263,8 +262,8 @@ def run(chk):
                 'thorough) from roles {:ARG0, inverted :ARG1-of, :quant, :polarity}, constants {0 | 0.0, -1.5, "s", k, '
                 'None}, concepts {symbol, None, numeric incl. 0, spelled like a variable}; EVERY permutation of the '
                 'triple list for <=5 triples (else 30 shuffles) x EVERY variable as top x models {default, live AMR, '
-                'mini-AMR, no-op}. (2) rand: random graphs with <=6 variables (<=8 thorough), <=4 extra triples, per-model '
-                'invertible roles incl. already-inverted ones, 12 orders x every top. (*-remarked) every distinct '
+                'mini-AMR; no-op on the one-variable family, rand and hand only, its trees being the default model\'s}. (2) rand: random graphs with <=6 variables (<=8 thorough), <=4 extra triples, per-model '
+                'invertible roles incl. already-inverted ones, 10 orders x every top. (*-remarked) every distinct '
                 'encoded text is decoded and the decoded graph (genuine Push/POP markers, explicit top) re-encoded from '
                 'every top in 4 orders of its triples keeping the epidata. A case is distinct per (model, ordered '
                 'triple list, markers, top). The content clause is asserted for the deinverting models; the no-op '
@@ -287,6 +286,8 @@ def run(chk):
         for model in MODEL_NAMES:
             if kind == 'v3+2' and model not in ('default', 'mini'):
                 continue
+            if model == 'noop' and kind != 'v1':
+                continue     # configure never consults deinvert: the no-op trees are the default model's
             for i in range(0, len(gs), per):
                 # re-marked stage on every graph of the small families, on a third of the 6/7-triple ones in quick
                 remark = (not quick) or kind in ('v1', 'v2', 'v3') or (i // per) % 3 == 0
@@ -300,7 +301,7 @@ def run(chk):
     K.run_stream(chk, 'hand', hand_worker, [(exe, m) for m in MODEL_NAMES] + [(None, 'default')])
 
     nitems = 64 if quick else 960
-    items = [(exe, rng.getrandbits(48), 12 if quick else 20, 6 if (quick or i % 2) else 8, MODEL_NAMES)
+    items = [(exe, rng.getrandbits(48), 8 if quick else 20, 6 if (quick or i % 2) else 8, MODEL_NAMES)
              for i in range(nitems)]
     K.run_stream(chk, 'rand', rand_worker, items)
 
